@@ -417,6 +417,10 @@ pub fn replay(args: &Args) -> i32 {
     0
 }
 
+pub fn random_segs_pub(rng: &mut Rng) -> Value {
+    random_segs(rng)
+}
+
 fn random_segs(rng: &mut Rng) -> Value {
     let n = rng.range(1, 5);
     let mut segs = Vec::new();
